@@ -1,6 +1,7 @@
 import BleveModel.Proto
 import BleveModel.Model.Query
 import BleveModel.Model.BoolSearcher
+import BleveModel.Model.ConjSearcher
 /-! Driver for the search-semantics (C02) and searcher-contract (C08) correspondences. -/
 namespace Bleve.Drv.C02
 open Bleve.Proto Bleve.Query
@@ -176,6 +177,11 @@ def step (toks : List String) : String :=
                 some (Bleve.BoolSearcher.runImpl (fun _ c => c)
                   (Bleve.BoolSearcher.init parts.1 parts.2.1 parts.2.2.1 parts.2.2.2) ops)
               else Option.none
+            | .conj (q0 :: qs) =>
+              let ops := calls.map (fun c => match c with
+                | .next => Bleve.BoolSearcher.Op.next | .adv t => Bleve.BoolSearcher.Op.adv t)
+              some (Bleve.ConjSearcher.runImpl (fun _ c => c)
+                (Bleve.ConjSearcher.init ((q0 :: qs).map (fun x => den x docs))) ops)
             | _ => Option.none
           let render := fun (l : List (Option Nat)) => joinWith "," (l.map (fun o => match o with
             | some i => toString i | none => "nil"))
